@@ -20,6 +20,34 @@ def scratch_copy():
     return d
 
 
+def _child(rep, d):
+    env = dict(os.environ, VERIF_REPO=d, VERIF_SELFTEST_CHILD="1", VERIF_TIER="quick")
+    env.pop("VERIF_FORCE_FACTS", None)
+    env.pop("VERIF_FACTS_FORCED_ONCE", None)
+    r = subprocess.run([sys.executable, os.path.join(VERIF, "rules/run.py"), rep.pid], capture_output=True, text=True, env=env)
+    fired = [ln.split("\t")[0].replace("SELFTEST-FAILED-OB ", "") for ln in r.stdout.splitlines() if ln.startswith("SELFTEST-FAILED-OB ")]
+    return r, fired
+
+
+def _run_patch(rep, d, m):
+    """a confirmed seeded change (seeded/<ID>/patch.diff) applied to the scratch copy"""
+    pf = os.path.join(VERIF, m["patch"])
+    a = subprocess.run(["patch", "-p1", "-s", "-f", "-d", d, "-i", pf], capture_output=True, text=True)
+    try:
+        if a.returncode != 0:
+            return dict(name=m["name"], status="skipped", why="patch does not apply: " + (a.stdout + a.stderr)[-200:])
+        r, fired = _child(rep, d)
+        want = m["expect"]
+        if want == "MISSED":  # a recorded miss: the seed is known not to be caught; report if that changes
+            return dict(name=m["name"], status="known-miss" if not fired else "now-detected", fired=sorted(set(fired))[:6])
+        hit = any(f.startswith(want) for f in fired)
+        if "ANALYSIS-ERROR" in r.stdout and not hit:
+            return dict(name=m["name"], status="mutant-does-not-build", why=r.stdout.strip().splitlines()[-1][:200])
+        return dict(name=m["name"], status="detected" if hit else "MISSED", expect=want, fired=sorted(set(fired))[:6])
+    finally:
+        subprocess.run(["patch", "-p1", "-s", "-f", "-R", "-d", d, "-i", pf], capture_output=True, text=True)
+
+
 def run(rep):
     spec = os.path.join(VERIF, "selftest", rep.pid + ".json")
     if not os.path.exists(spec):
@@ -30,6 +58,9 @@ def run(rep):
     d = scratch_copy()
     try:
         for m in mutants:
+            if "patch" in m:
+                results.append(_run_patch(rep, d, m))
+                continue
             path = os.path.join(d, m["file"])
             if not os.path.exists(path):
                 results.append(dict(name=m["name"], status="skipped", why="file missing"))
@@ -40,10 +71,7 @@ def run(rep):
                 continue
             open(path, "w").write(src.replace(m["old"], m["new"]))
             try:
-                env = dict(os.environ, VERIF_REPO=d, VERIF_SELFTEST_CHILD="1", VERIF_TIER="quick")
-                env.pop("VERIF_FORCE_FACTS", None)
-                r = subprocess.run([sys.executable, os.path.join(VERIF, "rules/run.py"), rep.pid], capture_output=True, text=True, env=env)
-                fired = [ln.split("\t")[0].replace("SELFTEST-FAILED-OB ", "") for ln in r.stdout.splitlines() if ln.startswith("SELFTEST-FAILED-OB ")]
+                r, fired = _child(rep, d)
                 want = m["expect"]
                 hit = any(f.startswith(want) for f in fired)
                 if "ANALYSIS-ERROR" in r.stdout and not hit:
